@@ -6,7 +6,7 @@
 (* allows.  State: the definition the following events are about (and its   *)
 (* derived tables, computed once when the definition is loaded).            *)
 (***************************************************************************)
-EXTENDS FromStr, TraceBase
+EXTENDS FromStr, Display, TraceBase
 
 VARIABLES l, E, T
 vars == <<l, E, T>>
@@ -91,11 +91,67 @@ Conv == /\ IsEvent("conv")
                                            expected |-> Convert(e.style, e.ids[n]), nbad |-> Cardinality(bad)])
         /\ UNCHANGED <<E, T>>
 
+\* ---- fmt: a fixed-name variant under a grid of format specs (C17) --------------------------------
+\* outs = the enum value formatted under each spec, std = its plain rendering (a &str) formatted by std
+\* under the same spec; both must be FmtStr(canonical name, spec) - the second equality validates FmtStr
+Fmt == /\ IsEvent("fmt")
+       /\ LET e == Rec[l]  v == E.variants[e.i]  c == T.canon[e.i]
+              bad == {n \in 1..Len(e.specs) : e.outs[n] # FmtStr(c, e.specs[n]) \/ e.std[n] # FmtStr(c, e.specs[n])}
+          IN /\ Require(e.def = E.id /\ Fixed(v) /\ Len(e.outs) = Len(e.specs) /\ Len(e.std) = Len(e.specs), l,
+                        "fmt: malformed event", e.i)
+             /\ IF bad = {} THEN TRUE
+                ELSE LET n == CHOOSE n \in bad : \A m \in bad : n <= m IN
+                     Mismatch(l, "fmt", [def |-> E.id, variant |-> e.i, spec |-> e.specs[n], observed |-> e.outs[n],
+                                         std_says |-> e.std[n], expected |-> FmtStr(c, e.specs[n]), nbad |-> Cardinality(bad)])
+       /\ UNCHANGED <<E, T>>
+
+\* ---- fwd: a default / transparent variant next to its inner value (C11) ---------------------------
+\* what = "display": both formatted under the same specs; "as_ref" / "into": the derive's result next to the
+\* inner value's own result.  The caller's flags must reach the inner value: pairwise equality.
+Forwards(v) == ~v.dis /\ (v.transp \/ (v.def /\ ~IsSome(v.ts)))
+Fwd == /\ IsEvent("fwd")
+       /\ LET e == Rec[l]  v == E.variants[e.i]
+              bad == {n \in 1..Len(e.outer) : e.outer[n] # e.inner[n]}
+          IN /\ Require(e.def = E.id /\ Forwards(v) /\ Len(e.outer) = Len(e.inner) /\ Len(e.outer) > 0, l,
+                        "fwd: event outside the property's domain", e.i)
+             /\ IF bad = {} THEN TRUE
+                ELSE LET n == CHOOSE n \in bad : \A m \in bad : n <= m IN
+                     Mismatch(l, "fwd", [def |-> E.id, variant |-> e.i, what |-> e.what, nth |-> n, outer |-> e.outer[n],
+                                         inner |-> e.inner[n], nbad |-> Cardinality(bad)])
+       /\ UNCHANGED <<E, T>>
+
+\* ---- caprt: from_str(s).to_string() for captured inputs (C11) -------------------------------------
+CapRt == /\ IsEvent("caprt")
+         /\ LET e == Rec[l]
+                \* a default variant WITH to_string prints that literal; without, the captured input
+                want(n) == LET r == ParseSpecT(E, T, e.ins[n]) IN
+                           IF r.k # "capture" THEN <<>>
+                           ELSE IF IsSome(E.variants[r.i].ts) THEN <<T.canon[r.i]>> ELSE <<e.ins[n]>>
+                bad == {n \in 1..Len(e.ins) : e.ts[n] # want(n)}
+            IN /\ Require(e.def = E.id /\ Len(e.ts) = Len(e.ins), l, "caprt: malformed event", e.def)
+               /\ IF bad = {} THEN TRUE
+                  ELSE LET n == CHOOSE n \in bad : \A m \in bad : n <= m IN
+                       Mismatch(l, "caprt", [def |-> E.id, input |-> e.ins[n], printed |-> e.ts[n], nbad |-> Cardinality(bad)])
+         /\ UNCHANGED <<E, T>>
+
+\* ---- interp: a to_string literal with placeholders (C17) ------------------------------------------
+\* obs = Display of the value, std = format!(literal, fields...) written out by hand, fr = std's rendering of
+\* each used (field, spec) pair; binding by name/position, order and brace escapes are Interp's
+InterpEv == /\ IsEvent("interp")
+            /\ LET e == Rec[l]  v == E.variants[e.i]  lit == T.canon[e.i]      \* prefix \o to_string literal
+                   want == Interp(v, lit, e.fr)
+               IN /\ Require(e.def = E.id /\ ~v.dis /\ IsSome(v.ts) /\ Interpolates(v, lit), l,
+                             "interp: event outside the property's domain", e.i)
+                  /\ Require(e.obs = want /\ e.std = want, l, "interp",
+                             [def |-> E.id, variant |-> e.i, literal |-> lit, observed |-> e.obs, format_says |-> e.std,
+                              expected |-> want])
+            /\ UNCHANGED <<E, T>>
+
 \* a panic inside generated code is an event no action of the specification produces
 Panicked == /\ IsEvent("panic")
             /\ Mismatch(l, "panic in generated code", [def |-> Rec[l].def, variant |-> Rec[l].i, msg |-> Rec[l].msg])
             /\ UNCHANGED <<E, T>>
 
-Next == Panicked \/ LoadDef \/ Parse \/ Names \/ VNames \/ RoundTrip \/ Sers \/ Conv
+Next == Panicked \/ Fmt \/ Fwd \/ CapRt \/ InterpEv \/ LoadDef \/ Parse \/ Names \/ VNames \/ RoundTrip \/ Sers \/ Conv
 Spec == Init /\ [][Next]_vars
 =============================================================================
